@@ -109,6 +109,7 @@ theorem apply0_path_frame (w : World) (l : Label) (x : EId) (h : writesPath l = 
   case wiCancel => simp [apply0]
   case expectTimeout x' => simp only [apply0]; split <;> simp
   case expectCancelReq x' => simp only [apply0]; split <;> simp
+  case hSkip p_ b_ e_ k_ => simp only [apply0]; split <;> simp
   case stopBegin => simp [apply0]
   case stopNoop => simp [apply0]
   case stopEnd x' => simp only [apply0]; split <;> (try split) <;> simp
